@@ -60,7 +60,7 @@ def _machine_jobs(c, harness, N, modes, sym='d', split_from=8):
 
 def check_C01(tier, nproc=None):
     c = Check('C01', tier)
-    N = 7 if tier == 'quick' else 10
+    N = 7 if tier == 'quick' else 11
     modes = BUFMODES_QUICK if tier == 'quick' else BUFMODES_THOROUGH
     _machine_jobs(c, 'vH_C01', N, modes)
     _number_jobs(c, 'vH_C01')
@@ -82,7 +82,7 @@ def check_C01(tier, nproc=None):
 
 def check_C02(tier, nproc=None):
     c = Check('C02', tier)
-    N = 7 if tier == 'quick' else 10
+    N = 7 if tier == 'quick' else 11
     modes = BUFMODES_QUICK if tier == 'quick' else BUFMODES_THOROUGH
     _machine_jobs(c, 'vH_C02', N, modes)
     _number_jobs(c, 'vH_C02')
@@ -108,7 +108,7 @@ STRING_TEMPLATES = [
 
 def check_C11(tier, nproc=None):
     c = Check('C11', tier)
-    N = 7 if tier == 'quick' else 10
+    N = 7 if tier == 'quick' else 12
     modes = [0, 4] if tier == 'quick' else [0, 1, 2, 4]
     _machine_jobs(c, 'vH_C11', N, modes)
     for t in STRING_TEMPLATES:
@@ -125,13 +125,13 @@ def check_C11(tier, nproc=None):
 
 def check_C13(tier, nproc=None):
     c = Check('C13', tier)
-    N = 6 if tier == 'quick' else 8
+    N = 6 if tier == 'quick' else 10
     for n in range(0, N + 1):
         c.add(Job('vH_C13_token', [('bytes', 'd', n)], weight=2 ** n))
         c.add(Job('vH_C13_literals', [('bytes', 'd', n)], weight=3 ** n))
-        if n <= N - 1:
+        if n <= min(N - 1, 7):
             c.add(Job('vH_C13_exclusive', [('bytes', 'd', n)], weight=5 ** n, opts={'float_contract': True}))
-    c.bounds = {'N': N, 'N_exclusive': N - 1}
+    c.bounds = {'N': N, 'N_exclusive': min(N - 1, 7)}
     c.must_reach = ['C13.eof', 'C13.token', 'C13.readnull', 'C13.exclusive']
     c.assumptions = ['reference token table / literal matcher in harness/zz_verif_ref.go', 'amd64']
     c.outside = ['inputs longer than N bytes (whitespace prefixes longer than N)']
@@ -170,8 +170,8 @@ def check_C07(tier, nproc=None):
 
 def check_C09(tier, nproc=None):
     c = Check('C09', tier)
-    N = 6 if tier == 'quick' else 9
-    K = 3 if tier == 'quick' else 4
+    N = 6 if tier == 'quick' else 10
+    K = 3 if tier == 'quick' else 5
     for n in range(0, N + 1):
         for obj in (False, True):
             for k in range(K):
@@ -298,7 +298,7 @@ def check_C12(tier, nproc=None):
 
 def check_C06(tier, nproc=None):
     c = Check('C06', tier)
-    N = 6 if tier == 'quick' else 8
+    N = 6 if tier == 'quick' else 9
     for n in range(0, N + 1):
         for pre, spare in ([(0, 0), (2, 1)] if tier == 'quick' else [(0, 0), (1, 0), (2, 1), (0, 3), (1, 4), (0, n), (2, n + 4)]):
             c.add(Job('vH_C06_bytes', [('bytes', 'd', n), ('int', pre), ('int', spare)], weight=3 ** n))
@@ -364,7 +364,7 @@ def _tmplstr(t):
 
 def check_C03(tier, nproc=None):
     c = Check('C03', tier)
-    N = 6 if tier == 'quick' else 8
+    N = 6 if tier == 'quick' else 9
     o = {'float_contract': True}
     for which in range(3):
         for n in range(0, N + 1):
